@@ -18,8 +18,11 @@
 package types
 
 import (
+	"bytes"
+	"database/sql"
 	"encoding/base64"
 	"encoding/json"
+	"fmt"
 	"reflect"
 	"time"
 )
@@ -196,6 +199,17 @@ func (c *ColumnImage) MarshalJSON() ([]byte, error) {
 	if t, ok := c.Value.(time.Time); ok {
 		value = t.Format(time.RFC3339Nano)
 	}
+	switch c.ColumnType {
+	case JDBCTypeChar, JDBCTypeVarchar, JDBCTypeLongVarchar:
+		// character data is always written as a plain JSON string, whatever Go type the scanner produced,
+		// so that UnmarshalJSON never has to guess whether a string is base64
+		switch b := c.Value.(type) {
+		case []byte:
+			value = string(b)
+		case sql.RawBytes:
+			value = string(b)
+		}
+	}
 	return json.Marshal(&columnImageAlias{
 		KeyType:    c.KeyType,
 		ColumnName: c.ColumnName,
@@ -207,7 +221,10 @@ func (c *ColumnImage) MarshalJSON() ([]byte, error) {
 func (c *ColumnImage) UnmarshalJSON(data []byte) error {
 	var err error
 	tmpImage := make(map[string]interface{})
-	if err := json.Unmarshal(data, &tmpImage); err != nil {
+	// numbers are kept as json.Number: a float64 cannot hold every 64-bit integer
+	decoder := json.NewDecoder(bytes.NewReader(data))
+	decoder.UseNumber()
+	if err := decoder.Decode(&tmpImage); err != nil {
 		return err
 	}
 	var (
@@ -217,48 +234,113 @@ func (c *ColumnImage) UnmarshalJSON(data []byte) error {
 		value       interface{}
 		actualValue interface{}
 	)
-	keyType = tmpImage["keyType"].(string)
-	columnType = int16(int64(tmpImage["type"].(float64)))
-	columnName = tmpImage["name"].(string)
+	keyType, _ = tmpImage["keyType"].(string)
+	if n, ok := tmpImage["type"].(json.Number); ok {
+		t, err := n.Int64()
+		if err != nil {
+			return err
+		}
+		columnType = int16(t)
+	}
+	columnName, _ = tmpImage["name"].(string)
 	value = tmpImage["value"]
+
+	intValue := func() (int64, error) {
+		n, ok := value.(json.Number)
+		if !ok {
+			return 0, fmt.Errorf("column %s: value %v is not a number", columnName, value)
+		}
+		if i, err := n.Int64(); err == nil {
+			return i, nil
+		}
+		f, err := n.Float64()
+		return int64(f), err
+	}
+	floatValue := func() (float64, error) {
+		n, ok := value.(json.Number)
+		if !ok {
+			return 0, fmt.Errorf("column %s: value %v is not a number", columnName, value)
+		}
+		return n.Float64()
+	}
+	timeValue := func() (time.Time, error) {
+		s, ok := value.(string)
+		if !ok {
+			return time.Time{}, fmt.Errorf("column %s: value %v is not a time", columnName, value)
+		}
+		return time.Parse(time.RFC3339Nano, s)
+	}
 
 	if value != nil {
 		switch JDBCType(columnType) {
 		case JDBCTypeReal: // 4 Bytes
-			actualValue = value.(float32)
-		case JDBCTypeDecimal, JDBCTypeDouble: // 8 Bytes
-			actualValue = value.(float64)
+			var f float64
+			if f, err = floatValue(); err != nil {
+				return err
+			}
+			actualValue = float32(f)
+		case JDBCTypeDecimal, JDBCTypeDouble, JDBCTypeFloat, JDBCTypeNumberic: // 8 Bytes
+			if actualValue, err = floatValue(); err != nil {
+				return err
+			}
 		case JDBCTypeTinyInt: // 1 Bytes
-			actualValue = int8(value.(float64))
+			var i int64
+			if i, err = intValue(); err != nil {
+				return err
+			}
+			actualValue = int8(i)
 		case JDBCTypeSmallInt: // 2 Bytes
-			actualValue = int16(value.(float64))
+			var i int64
+			if i, err = intValue(); err != nil {
+				return err
+			}
+			actualValue = int16(i)
 		case JDBCTypeInteger: // 4 Bytes
-			actualValue = int32(value.(float64))
+			var i int64
+			if i, err = intValue(); err != nil {
+				return err
+			}
+			actualValue = int32(i)
 		case JDBCTypeBigInt: // 8Bytes
-			actualValue = int64(value.(float64))
-		case JDBCTypeTimestamp: // 4 Bytes
-			actualValue, err = time.Parse(time.RFC3339Nano, value.(string))
-			if err != nil {
+			if actualValue, err = intValue(); err != nil {
 				return err
 			}
-		case JDBCTypeDate: // 3Bytes
-			actualValue, err = time.Parse(time.RFC3339Nano, value.(string))
-			if err != nil {
-				return err
-			}
-		case JDBCTypeTime: // 3Bytes
-			actualValue, err = time.Parse(time.RFC3339Nano, value.(string))
-			if err != nil {
+		case JDBCTypeTimestamp, JDBCTypeDate, JDBCTypeTime:
+			if actualValue, err = timeValue(); err != nil {
 				return err
 			}
 		case JDBCTypeChar, JDBCTypeVarchar, JDBCTypeLongVarchar:
-			var val []byte
-			if val, err = base64.StdEncoding.DecodeString(value.(string)); err != nil {
-				val = []byte(value.(string))
+			s, ok := value.(string)
+			if !ok {
+				return fmt.Errorf("column %s: value %v is not a string", columnName, value)
 			}
-			actualValue = string(val)
+			actualValue = s
 		case JDBCTypeBinary, JDBCTypeVarBinary, JDBCTypeLongVarBinary, JDBCTypeBit:
-			actualValue = value
+			// encoding/json writes []byte as base64
+			if s, ok := value.(string); ok {
+				if b, err := base64.StdEncoding.DecodeString(s); err == nil {
+					actualValue = b
+				} else {
+					actualValue = s
+				}
+			} else if n, ok := value.(json.Number); ok {
+				if actualValue, err = n.Int64(); err != nil {
+					return err
+				}
+			} else {
+				actualValue = value
+			}
+		default:
+			// types without a dedicated representation keep what JSON carried
+			if n, ok := value.(json.Number); ok {
+				if i, err := n.Int64(); err == nil {
+					actualValue = i
+				} else if actualValue, err = n.Float64(); err != nil {
+					return err
+				}
+			} else {
+				actualValue = value
+			}
 		}
 	}
 	*c = ColumnImage{
